@@ -265,13 +265,20 @@ def strip_comments(text):
     return "".join(out)
 
 
+def prop_modules(prop):
+    """the property's statement modules: TsV/Props/<prop>.lean and TsV/Props/<prop>_*.lean"""
+    d = os.path.join(LEAN, "TsV", "Props")
+    return sorted(fn[:-5] for fn in os.listdir(d) if re.fullmatch(re.escape(prop) + r"(_\w+)?\.lean", fn))
+
+
 def theorems_of(prop):
-    """(theorem names, number of `example`s) declared in TsV/Props/<prop>.lean"""
-    path = os.path.join(LEAN, "TsV", "Props", prop + ".lean")
-    text = strip_comments(open(path).read())
-    ns = re.search(r"^namespace\s+(\S+)", text, re.M).group(1)
-    names = [ns + "." + m for m in re.findall(r"^\s*theorem\s+([^\s:({\[]+)", text, re.M)]
-    examples = len(re.findall(r"^\s*example\b", text, re.M))
+    """(theorem names, number of `example`s) declared in the property's statement modules"""
+    names, examples = [], 0
+    for base in prop_modules(prop):
+        text = strip_comments(open(os.path.join(LEAN, "TsV", "Props", base + ".lean")).read())
+        ns = re.search(r"^namespace\s+(\S+)", text, re.M).group(1)
+        names += [ns + "." + m for m in re.findall(r"^\s*theorem\s+([^\s:({\[]+)", text, re.M)]
+        examples += len(re.findall(r"^\s*example\b", text, re.M))
     return names, examples
 
 
@@ -280,14 +287,17 @@ def audit(prop, thorough=False):
     Returns dict(obligations, discharged, theorems={name: axioms}, problems=[...])."""
     problems = []
     t0 = time.time()
-    mod = "TsV.Props." + prop
+    bases = prop_modules(prop)
+    mods = ["TsV.Props." + b for b in bases]
+    mod = " ".join(mods)
     if thorough:
-        # force re-elaboration of the property module
-        for ext in ("olean", "ilean", "trace", "olean.hash", "ilean.hash"):
-            p = os.path.join(LEAN, ".lake", "build", "lib", "lean", "TsV", "Props", prop + "." + ext)
-            if os.path.exists(p):
-                os.remove(p)
-    ok, out = build_lean([mod, "tsmodel"])
+        # force re-elaboration of the property modules
+        for b in bases:
+            for ext in ("olean", "ilean", "trace", "olean.hash", "ilean.hash"):
+                p = os.path.join(LEAN, ".lake", "build", "lib", "lean", "TsV", "Props", b + "." + ext)
+                if os.path.exists(p):
+                    os.remove(p)
+    ok, out = build_lean(mods + ["tsmodel"])
     names, examples = theorems_of(prop)
     obligations = len(names) + examples
     if not ok:
@@ -303,7 +313,8 @@ def audit(prop, thorough=False):
     os.makedirs(os.path.join(BUILD, "audit"), exist_ok=True)
     afile = os.path.join(BUILD, "audit", prop + ".lean")
     with open(afile, "w") as f:
-        f.write("import %s\n" % mod)
+        for m_ in mods:
+            f.write("import %s\n" % m_)
         for n in names:
             f.write("#print axioms %s\n" % n)
     lock = _locked("lake")
@@ -326,7 +337,7 @@ def audit(prop, thorough=False):
     if thorough and not problems:
         lock = _locked("lake")
         try:
-            rc, cout = sh(["lake", "env", "leanchecker", mod], cwd=LEAN)
+            rc, cout = sh(["lake", "env", "leanchecker"] + mods, cwd=LEAN)
         finally:
             lock.close()
         if rc != 0:
